@@ -81,6 +81,9 @@ func VerifC04Seal() {
 	if verifParam("allsizes", 0) == 1 {
 		sizes = []int{1, 8, 36, 252}
 	}
+	if verifParam("maxsize", 0) == 1 {
+		sizes = []int{252} // the largest value size the builder accepts (entry stride 255)
+	}
 	vs := sizes[verifChoice("valueSize", len(sizes))]
 	decls := []uint{1, 10000, 10001, 20000}
 	declared := decls[verifChoice("declared", len(decls))]
